@@ -124,6 +124,14 @@ def extract(tree):
         for callee, arg in sites(body):
             table.append((f, callee, arg))
     info["markSites"] = table
+    # typed (not depth-checked) calls between the per-type mark functions: every cycle here is unbounded C recursion
+    per_type = {"janet_mark_string", "janet_mark_buffer", "janet_mark_abstract", "janet_mark_array", "janet_mark_table", "janet_mark_struct",
+                "janet_mark_tuple", "janet_mark_funcenv", "janet_mark_funcdef", "janet_mark_function", "janet_mark_fiber"}
+    direct = []
+    for f, callee, arg in table:
+        if f in per_type and callee in per_type and (f, callee) not in direct:
+            direct.append((f, callee))
+    info["directCalls"] = direct
     return info
 
 
@@ -157,5 +165,7 @@ def render(tree):
     out.append("def markSites : List (String × String × String) := [")
     out.append(",\n".join('  ("%s", "%s", "%s")' % (a, b, c.replace("\\", "\\\\").replace('"', '\\"')) for a, b, c in info["markSites"]))
     out.append("]\n")
+    out.append("/-- direct (typed, not depth-checked) calls between the per-type mark functions -/")
+    out.append("def directCalls : List (String × String) := [" + ", ".join('("%s", "%s")' % d for d in info["directCalls"]) + "]\n")
     out.append("end JanetModel.Gen.GC\n")
     return "\n".join(out), {"recursionGuard": info["recursionGuard"], "markSites": len(info["markSites"]), "memoryTypes": len(mem)}
